@@ -4,6 +4,9 @@ import (
 	"encoding/json"
 	"fmt"
 	"log/slog"
+	"os"
+	"path/filepath"
+	"regexp"
 	"strings"
 	"time"
 
@@ -244,6 +247,11 @@ func streamThrough(h *handler.Handler, input []byte) []handler.Message {
 
 // genHistory builds one history, truth first.
 func genHistory(r *ref.SplitMix64, anyStartInWeek bool) (timeCase, bool) {
+	return genHistoryAt(r, anyStartInWeek, nil)
+}
+
+// genHistoryAt: with forced != nil the start time is that instant.
+func genHistoryAt(r *ref.SplitMix64, anyStartInWeek bool, forced *time.Time) (timeCase, bool) {
 	var k timeCase
 	k.Zone = zoneNames[r.Intn(len(zoneNames))]
 	k.ViaStream = r.Chance(1, 3)
@@ -259,9 +267,12 @@ func genHistory(r *ref.SplitMix64, anyStartInWeek bool) (timeCase, bool) {
 			T = roll.Add(time.Duration(r.Range(-2, 2)) * time.Millisecond)
 		}
 	}
+	if forced != nil {
+		T = forced.UTC()
+	}
 	k.StartMs = T.UnixMilli()
 	T = time.UnixMilli(k.StartMs).UTC()
-	if anyStartInWeek && r.Chance(1, 6) {
+	if forced == nil && anyStartInWeek && r.Chance(1, 6) {
 		// start times have sub-millisecond resolution (time.Now()): the last microseconds
 		// before a rollover still belong to the old week
 		cons := ref.TimedConstellations[r.Intn(4)]
@@ -471,6 +482,126 @@ func genHistory(r *ref.SplitMix64, anyStartInWeek bool) (timeCase, bool) {
 	return k, nontrivial
 }
 
+// ---------------------------------------------------------------------------
+// C17 through the program: "displaying a recorded file with any date of that week".
+
+type dispCase struct {
+	Arg  string   `json:"date_argument"`
+	TZ   string   `json:"tz"` // time zone of the process: "", a zone name, or fixed<hours>
+	Hist timeCase `json:"history"`
+	ID   int      `json:"id"`
+}
+
+// fixedZoneFile writes a TZif file describing a zone with a constant offset.
+func fixedZoneFile(path string, offsetSeconds int) {
+	off := uint32(int32(offsetSeconds))
+	b := append([]byte("TZif"), make([]byte, 16)...)
+	for _, v := range []uint32{0, 0, 0, 0, 1, 4} {
+		b = append(b, byte(v>>24), byte(v>>16), byte(v>>8), byte(v))
+	}
+	b = append(b, byte(off>>24), byte(off>>16), byte(off>>8), byte(off), 0, 0)
+	b = append(b, 'X', 'X', 'X', 0)
+	os.WriteFile(path, b, 0644)
+}
+
+var displayBlock = regexp.MustCompile(`(?m)^Message type (\d+), `)
+
+func execC17Process(c *child.Ctx, k dispCase, cj []byte) {
+	dir := filepath.Join(c.WorkDir, fmt.Sprintf("disp%d", k.ID))
+	os.MkdirAll(dir, 0755)
+	defer os.RemoveAll(dir)
+	r := ref.NewRand(uint64(k.Hist.StartMs) ^ 0x5555)
+	var file []byte
+	for _, m := range k.Hist.Msgs {
+		file = append(file, timeFrame(r, m.Type, m.TS)...)
+	}
+	os.WriteFile(filepath.Join(dir, "recorded.rtcm"), file, 0644)
+	var env []string
+	if strings.HasPrefix(k.TZ, "fixed") {
+		var hours int
+		fmt.Sscanf(k.TZ, "fixed%d", &hours)
+		zf := filepath.Join(dir, "zone.tzif")
+		fixedZoneFile(zf, hours*3600)
+		env = append(env, "TZ="+zf)
+	} else if k.TZ != "" {
+		env = append(env, "TZ="+k.TZ)
+	}
+	res := runAppProcess(c, filepath.Join(c.BinDir, "displayrtcm3"), []string{"recorded.rtcm", k.Arg}, nil, appCase{ID: k.ID, StdinMode: "file", StdoutMode: "fast"}, dir, env)
+	switch {
+	case res.TimedOut:
+		c.Inconclusive("displayrtcm3 did not exit within 90 s")
+		return
+	case res.ExitCode != 0:
+		c.Violate("crash", fmt.Sprintf("displayrtcm3 %q exited with status %d:\n%s", k.Arg, res.ExitCode, clipText(res.Stderr)), cj)
+		return
+	}
+	out := string(res.Stdout)
+	locs := displayBlock.FindAllStringSubmatchIndex(out, -1)
+	if len(locs) != len(k.Hist.Msgs) {
+		c.Violate("wrong-utc-time", fmt.Sprintf("displayrtcm3 %q (TZ %q) displayed %d messages for a file of %d", k.Arg, k.TZ, len(locs), len(k.Hist.Msgs)), cj)
+		return
+	}
+	for i, m := range k.Hist.Msgs {
+		end := len(out)
+		if i+1 < len(locs) {
+			end = locs[i+1][0]
+		}
+		block := out[locs[i][0]:end]
+		if m.Illegal {
+			continue
+		}
+		cons := ref.ConstellationOf(m.Type)
+		u := time.UnixMilli(m.TrueMs).UTC()
+		var sentLine, weekLine string
+		for _, ln := range strings.Split(block, "\n") {
+			if sentLine == "" && strings.HasPrefix(ln, "Time ") {
+				sentLine = ln
+			}
+			if weekLine == "" && strings.HasPrefix(ln, "Start of ") {
+				weekLine = ln
+			}
+		}
+		sent, err := parseReported(sentLine, "Time ")
+		if err != nil || !sent.Equal(u) {
+			c.Violate("wrong-utc-time", fmt.Sprintf("displayrtcm3 recorded.rtcm %s (process time zone %q): message %d (%s, timestamp %d) is displayed with %q, its true observation time is %s",
+				k.Arg, k.TZ, i, cons, m.TS, sentLine, u.Format(time.RFC3339Nano)), cj)
+			return
+		}
+		week, err := parseReported(weekLine, "Start of "+cons+" week ")
+		if err != nil || !week.Equal(ref.WeekStartUTC(cons, u)) {
+			c.Violate("wrong-start-of-week", fmt.Sprintf("displayrtcm3 recorded.rtcm %s (process time zone %q): message %d (%s) is displayed with %q, the true start of week is %s",
+				k.Arg, k.TZ, i, cons, weekLine, ref.WeekStartUTC(cons, u).Format(time.RFC3339)), cj)
+			return
+		}
+		c.Count("displayed_times_compared", 1)
+	}
+	c.Count("display_processes_checked", 1)
+}
+
+func genDispCase(r *ref.SplitMix64, id int) dispCase {
+	// a week, then one of its seven dates (or an instant with an explicit offset)
+	day := time.Date(2005+r.Intn(31), time.Month(1+r.Intn(12)), 1+r.Intn(28), 0, 0, 0, 0, time.UTC)
+	switch r.Intn(4) {
+	case 0:
+		day = day.AddDate(0, 0, -int(day.Weekday())) // the Sunday
+	case 1:
+		day = day.AddDate(0, 0, 6-int(day.Weekday())) // the Saturday
+	}
+	var arg string
+	T := day
+	if r.Chance(3, 4) {
+		arg = day.Format("2006-01-02")
+	} else {
+		offH := r.Range(-11, 13)
+		T = day.Add(time.Duration(r.Range(0, 86399)) * time.Second)
+		arg = T.In(time.FixedZone("", offH*3600)).Format(time.RFC3339)
+	}
+	h, _ := genHistoryAt(r, true, &T)
+	h.Split, h.RestFrames, h.ViaStream, h.Debug = 0, false, true, true
+	tz := []string{"", "UTC", "fixed2", "fixed9", "fixed13", "fixed-5", "fixed-11", "fixed1", "Asia/Tokyo", "Europe/Moscow", "America/New_York", "Pacific/Auckland"}[r.Intn(12)]
+	return dispCase{Arg: arg, TZ: tz, Hist: h, ID: id}
+}
+
 func minI64(a, b int64) int64 {
 	if a < b {
 		return a
@@ -480,6 +611,14 @@ func minI64(a, b int64) int64 {
 
 func monTime(c *child.Ctx, replay json.RawMessage, anyStart bool) {
 	sig := ""
+	if replay != nil && hasKey(replay, "date_argument") {
+		var dk dispCase
+		json.Unmarshal(replay, &dk)
+		c.Begin(replay)
+		execC17Process(c, dk, replay)
+		c.Eval(1, true)
+		return
+	}
 	if replay != nil {
 		var k timeCase
 		json.Unmarshal(replay, &k)
@@ -505,6 +644,17 @@ func monTime(c *child.Ctx, replay json.RawMessage, anyStart bool) {
 		c.Eval(ref.Hash64(cj), nontriv)
 		if c.WantSample() && nontriv && len(k.Msgs) < 12 {
 			c.Sample(k)
+		}
+	}
+	if anyStart {
+		// the documented use: displayrtcm3 <file> <any date of that week>, on machines
+		// in any time zone
+		np := c.Share(c.Pick(160, 3200))
+		for i := 0; i < np; i++ {
+			dk := genDispCase(r, c.Batch*100000+i)
+			cj := c.BeginV(dk)
+			execC17Process(c, dk, cj)
+			c.Eval(ref.Hash64(cj), true)
 		}
 	}
 }
